@@ -230,6 +230,11 @@ def run(facts, R):
                 if v is False and is_call(e, "lt") and len(e[2]) == 2 and is_call(e[2][0], "Instant::now"):
                     ok = True
                     deadline_txt = render(e[2][1])
+                # remaining = deadline.saturating_duration_since(now); remaining.is_zero()  <=>  now >= deadline
+                if v is True and is_call(e, "is_zero") and e[2] and is_call(e[2][0], "saturating_duration_since", "checked_duration_since") and len(e[2][0][2]) == 2 \
+                        and is_call(e[2][0][2][1], "Instant::now"):
+                    ok = True
+                    deadline_txt = render(e[2][0][2][0])
             R.check(ok, "timeout-at-deadline", b.path, "Timeout-guard",
                     "Timeout is returned on a path not guarded by `Instant::now() >= deadline`; guards: %s" % texts(fs), s.get("span"),
                     "Timeout only on now >= deadline")
@@ -237,12 +242,13 @@ def run(facts, R):
             if len(t["args"]) < 3:
                 continue
             d = sym.op(t["args"][2])
-            ok = is_call(d, "sub") and len(d[2]) == 2 and render(d[2][0]) == deadline_txt and is_call(d[2][1], "Instant::now")
+            ok = (is_call(d, "sub") or is_call(d, "saturating_duration_since") or is_call(d, "duration_since")) and len(d[2]) == 2 and render(d[2][0]) == deadline_txt and is_call(d[2][1], "Instant::now")
             R.check(ok, "timeout-at-deadline", b.path, "wait-duration",
                     "wait duration is %s, expected deadline - now with deadline=%s" % (render(d), deadline_txt), t.get("span"),
                     render(d))
             # the wait itself happens only while now < deadline
             fs = facts_at(b, sym, facts, i)
-            lt = any((f["val"] is False and is_call(f["expr"], "ge")) or (f["val"] is True and is_call(f["expr"], "lt")) for f in fs)
+            lt = any((f["val"] is False and is_call(f["expr"], "ge")) or (f["val"] is True and is_call(f["expr"], "lt")) or
+                     (f["val"] is False and is_call(f["expr"], "is_zero") and "duration_since" in render(f["expr"])) for f in fs)
             R.check(lt, "timeout-at-deadline", b.path, "wait-before-deadline",
                     "parks without having checked now < deadline (deadline - now would panic / wait is unbounded)", t.get("span"))
